@@ -224,6 +224,9 @@ empty @is_you(string s) { int k = 9; byte[] keep = ['k', 'p']; write(s); write('
         items.append(runner.Item(('wstr', 'long_lit', k), 'empty @is_you() { int keep = 7; write("%s%stail"); write(keep); }' % ('a' * col, e), [], s=80,
                                  meta={'family': 'write_long_string'}))
     items.append(runner.Item(('wstr', 'utf8'), strprog, ['hé 世界 \U0001F30E'], s=80, meta={'family': 'write_string'}))
+    # short literals (1 to 6 bytes) with multi-byte characters, written directly
+    items.append(runner.Item(('wstr', 'short_utf8'), 'empty @is_you() { write("\\u{b0}C"); write("|"); write("\\u{e9}"); writeln("\\u{4e16}"); write("\\u{1F30E}"); write("a\\u{e9}"); writeln("\\u{e9}\\u{e9}"); write("\\xc3\\xa9"); write("\\xff"); writeln("z"); write("ab"); write("\\n"); write("\\u{7f}\\u{80}"); }',
+                             [], s=80, meta={'family': 'write_string'}))
     arrprog = '''empty show(const byte[] c, byte[] m) { write(c); m[0] = 'Z'; writeln(c); }
 empty @is_you(byte[] a) { int k = 4; write(a); write('|'); writeln(a); show(a, a); byte[] al = a; al[0] = 'Y'; write(a); write(k); }'''
     for n in [x for x in lens if x > 0]:
@@ -600,6 +603,13 @@ def fault_family(seed, tier):
     # divisors that are compile-time constants (literal, const variable) under a run-time dividend
     add('div_const_zero', 'const int Z = 0; const int ONE = 1;\nempty @is_you(int x, int y) { int[] a = [x, 5]; int v = x; write(\'a\'); if (y == 1) { write(x / Z); } if (y == 2) { write(x %% Z); } if (y == 3) { a[0] %%= 0; } if (y == 4) { v /= 0; } if (y == 5) { a[1] /= Z; } write(x / ONE); write(\'b\'); write(a[0]); write(v); }'.replace('%%', '%'),
         [[7, k] for k in range(0, 6)])
+    # divisors that are lengths (of entry arrays / strings, dynamic arrays, literals), possibly zero
+    src = '''int cnt(const int[] p) { return 100 / p.length; }
+empty @is_you(int n, string s, const int[] v) { int a[n]; write('a'); if (n == 0) { write(10 / a.length); } if (n == 1) { write(10 %% s.length); } if (n == 2) { write(10 / v.length); write(10 %% v.length); }
+  if (n == 3) { int q = 7; q /= s.length; write(q); q %%= v.length; write(q); } if (n == 4) { write(cnt(v)); } if (n == 5) { write(7 / "".length); } write(12 / "abc".length); write('b'); }'''.replace('%%', '%')
+    for args in ([0, 'x'], [1, ''], [1, 'ab'], [2, 'x'], [2, 'x', 5, 6], [3, '', 1], [3, 'ab'], [3, 'ab', 4], [4, 'x'], [4, 'x', 9], [5, 'x']):
+        items.append(runner.Item(('flt', 'div_by_length', tuple(args)), src, [str(x) for x in args], s=120,
+                                 meta={'family': 'fault:div_by_length', 'classifier': {'site': 'div_by_length'}}))
     # dividends that are compile-time constants (0 and others) over a run-time divisor
     add('div_const_dividend', 'const int Z = 0; const int K = 12;\nempty @is_you(int x, int y) { write(\'a\'); if (y == 0) { write(0 / x); } if (y == 1) { write(0 %% x); } if (y == 2) { write(Z / x); } if (y == 3) { write(K %% x); } if (y == 4) { write(12 / x); } if (y == 5) { int v = 0; v /= x; write(v); } if (y == 6) { write((0 * x) / x); } write(\'b\'); }'.replace('%%', '%'),
         [[x, k] for x in (0, 5, -1) for k in range(0, 7)])
